@@ -801,6 +801,31 @@ def register(E):
         return Ref(m.vals, i)
     B['Entry::or_default'] = or_default
 
+    def or_insert_with(e, a, c):
+        m = deref(a[0].fields[0])
+        key = a[0].fields[1]
+        i, found = locate(e, m, key)
+        if not found:
+            val = e.call_value(a[1], []) if 'or_insert_with' in c else a[1]
+            m.keys.insert(i, key)
+            m.vals.insert(i, val)
+        return Ref(m.vals, i)
+    B['Entry::or_insert_with'] = or_insert_with
+    B['Entry::or_insert'] = or_insert_with
+
+    def partial_ord(rel):
+        def f(e, a, c):
+            r = e.cmp3(e, deref(a[0]), deref(a[1]))
+            return {'lt': r < 0, 'le': r <= 0, 'gt': r > 0, 'ge': r >= 0}[rel]
+        return f
+    for rel in ('lt', 'le', 'gt', 'ge'):
+        B['PartialOrd::' + rel] = partial_ord(rel)
+
+    def pne(e, a, c):
+        r = e.eq(deref(a[0]), deref(a[1]))
+        return (not r) if isinstance(r, bool) else z3.Not(r)
+    B['PartialEq::ne'] = pne
+
     def map_insert(e, a, c):
         m = deref(a[0])
         i, found = locate(e, m, a[1])
@@ -963,6 +988,9 @@ def register(E):
               'core::panicking::panic_bounds_check', 'std::rt::begin_panic'):
         B[k] = panic
 
+    # the generic parameter's name is not known at MIR level: one constant per call-site type argument
+    B['std::any::type_name'] = lambda e, a, c: 'T<' + (re.search(r'type_name::<(.*)>$', c).group(1) if re.search(r'type_name::<(.*)>$', c) else '?') + '>'
+    B['type_name'] = B['std::any::type_name']
     opaque = lambda e, a, c: UNIT
     B['Arguments::new'] = opaque
     B['Arguments::from_str'] = opaque
